@@ -201,10 +201,15 @@ class IsotropicSolidAngle(BaseProposal):
         original z-axis) such that it now coincides with the vector ``mu``.
         """
         beta = numpy.arccos(mu[2])
-        gamma = numpy.arccos(mu[0] / numpy.sqrt(mu[0]**2 + mu[1]**2))
-        # arccos is from 0 to pi but we want the rotation from 0 to 2pi
-        if mu[1] < 0:
-            gamma = 2 * numpy.pi - gamma
+        rxy = numpy.sqrt(mu[0]**2 + mu[1]**2)
+        if rxy > 0:
+            gamma = numpy.arccos(mu[0] / rxy)
+            # arccos is from 0 to pi but we want the rotation from 0 to 2pi
+            if mu[1] < 0:
+                gamma = 2 * numpy.pi - gamma
+        else:
+            # mu is at a pole, where the azimuthal angle is arbitrary
+            gamma = 0.
         # pre-calculates the sine and cos of the two angles
         sbeta, sgamma = numpy.sin(beta), numpy.sin(gamma)
         cbeta, cgamma = numpy.cos(beta), numpy.cos(gamma)
